@@ -50,6 +50,34 @@ type c14Case struct {
 	// FirstStream > 0: the payload is a concatenation of several complete DEFLATE streams; the first one inflates to exactly this
 	// many bytes, every further one to at most 8 MiB (a decoder that carries on after the end of a stream must still be bounded)
 	FirstStream int `json:"first_stream_bytes,omitempty"`
+	// B64Form: another spelling of the base64 text (a tolerant decoder must stay bounded for it too): crlf76 | blank-groups | tab-indent |
+	// leading-blank | unpadded | urlsafe | trailing-junk
+	B64Form string `json:"b64_form,omitempty"`
+}
+
+func c14B64Form(b64, form string) string {
+	switch form {
+	case "":
+		return b64
+	case "crlf76":
+		return strings.ReplaceAll(wrapN(b64, 76), "\n", "\r\n")
+	case "blank-groups":
+		return strings.ReplaceAll(strings.TrimRight(wrapN(b64, 64), "\n"), "\n", " ")
+	case "tab-indent":
+		return "\t" + strings.ReplaceAll(strings.TrimRight(wrapN(b64, 76), "\n"), "\n", "\n\t")
+	case "leading-blank":
+		return " " + b64
+	case "unpadded":
+		if t := strings.TrimRight(b64, "="); t != b64 {
+			return t
+		}
+		return b64[:len(b64)-1] // (already a multiple of three bytes: drop one character instead, still "unpadded" for a lenient decoder)
+	case "urlsafe":
+		return strings.NewReplacer("+", "-", "/", "_").Replace(b64)
+	case "trailing-junk":
+		return b64 + "!!"
+	}
+	panic("c14B64Form: " + form)
 }
 
 type c14Result struct {
@@ -153,7 +181,7 @@ func c14Worker(c c14Case) c14Result {
 		panic(err)
 	}
 	logout := strings.HasPrefix(c.Entry, "logout")
-	b64 := base64.StdEncoding.EncodeToString(c14Payload(c, logout))
+	b64 := c14B64Form(base64.StdEncoding.EncodeToString(c14Payload(c, logout)), c.B64Form)
 	res := c14Result{Compressed: len(b64)}
 	path := w.Cfg.SSOPath()
 	if logout {
@@ -228,7 +256,7 @@ func runC14(ctx Ctx) int {
 		}
 	}
 	run := ev.NewRun("C14")
-	run.Rule = "grid: inflated size {1,8,32,64 MiB quick; +256 MiB, 1 GiB thorough} x padding placement {comment, text, attribute value, after the root element} x surrounding request {valid, invalid} x entry {SSO query, SSO form, logout form, logout query} x SAMLEncoding parameter {declared, omitted}; plus the same data in a zlib (RFC 1950) / gzip container (32, 64 MiB), plus histories of 16 (thorough 40) identical oversized requests on one process with the last one measured, plus payloads made of several complete DEFLATE streams whose first one inflates to exactly 1 MiB, 10 MiB-1, 10 MiB, 10 MiB+1, 10 MB-1, 10 MB, 10 MB+1, 16 MiB, plus one storage operation failing (signing-key lookup error / nil record, service-provider lookup, persist) while the largest payload is served, fresh and after an earlier request; each case = one real ServeHTTP in a fresh worker process; oracle: bytes delivered by one inflater (counted by the overlay's pass-through reader) <= 20 MiB and by all inflaters of the request together <= 44 MiB, TotalAlloc delta <= 160 MiB, live heap retained after the request <= 48 MiB, and any payload larger than the bound is not accepted"
+	run.Rule = "grid: inflated size {1,8,32,64 MiB quick; +256 MiB, 1 GiB thorough} x padding placement {comment, text, attribute value, after the root element} x surrounding request {valid, invalid} x entry {SSO query, SSO form, logout form, logout query} x SAMLEncoding parameter {declared, omitted}; plus the same data in a zlib (RFC 1950) / gzip container (32, 64 MiB), plus histories of 16 (thorough 40) identical oversized requests on one process with the last one measured, plus payloads made of several complete DEFLATE streams whose first one inflates to exactly 1 MiB, 10 MiB-1, 10 MiB, 10 MiB+1, 10 MB-1, 10 MB, 10 MB+1, 16 MiB, plus seven other spellings of the base64 text (CRLF / blank / tab separated lines, leading blank, unpadded, URL-safe alphabet, trailing junk), plus one storage operation failing (signing-key lookup error / nil record, service-provider lookup, persist) while the largest payload is served, fresh and after an earlier request; each case = one real ServeHTTP in a fresh worker process; oracle: bytes delivered by one inflater (counted by the overlay's pass-through reader) <= 20 MiB and by all inflaters of the request together <= 44 MiB, TotalAlloc delta <= 160 MiB, live heap retained after the request <= 48 MiB, and any payload larger than the bound is not accepted"
 	run.Assume = []string{"the inflater is compress/flate (the byte counter sits on flate.NewReader); if a change replaces it the allocation clause still decides", "the counting reader aborts an execution at 128 MiB so a violating tree is reported instead of exhausting memory"}
 	judge := func(c c14Case, r c14Result) []string {
 		var bad []string
@@ -330,6 +358,15 @@ func runC14(ctx Ctx) int {
 			}
 		}
 	}
+	// other spellings of the base64 text
+	for _, bf := range []string{"crlf76", "blank-groups", "tab-indent", "leading-blank", "unpadded", "urlsafe", "trailing-junk"} {
+		for _, pl := range []string{"comment", "attr"} {
+			for _, e := range []string{"sso-query", "sso-form", "logout-form", "logout-query"} {
+				cases = append(cases, c14Case{SizeMiB: sizes[len(sizes)-1], Placement: pl, Valid: true, Entry: e, B64Form: bf})
+				cases = append(cases, c14Case{SizeMiB: sizes[len(sizes)-1], Placement: pl, Valid: true, Entry: e, B64Form: bf, Undeclared: true})
+			}
+		}
+	}
 	// storage failures while the oversized request is served (error paths must stay bounded too): every storage operation the
 	// SSO / logout handlers call before or after decoding x {error, nil key record} x placements x entries, fresh and after
 	// one earlier request
@@ -373,6 +410,9 @@ func runC14(ctx Ctx) int {
 		}
 		for _, cl := range judge(c, r) {
 			labels := []string{"entry=" + c.Entry, "placement=" + c.Placement}
+			if c.B64Form != "" {
+				labels = append(labels, "base64-spelling="+c.B64Form)
+			}
 			if c.Undeclared {
 				labels = append(labels, "SAMLEncoding-omitted")
 			}
